@@ -2,6 +2,7 @@
 import Drv.Common
 import AcmedVerif.Model.Jose
 import AcmedVerif.Spec.C15
+import AcmedVerif.Spec.C15Sig
 open Lean AcmedVerif
 
 namespace Drv
@@ -105,6 +106,10 @@ def opSigSplit (j : Json) : Json :=
                 ("reencodes", decide (re = some bytes)), ("len", (bytes.length : Nat))]
   | none => Json.mkObj [("ok", false), ("len", (bytes.length : Nat))]
 
+/-- Judge of the signature length (RFC 7518 / 8037 / 8017 table). -/
+def opC15SigLen (j : Json) : Json :=
+  Json.mkObj [("holds", Spec.C15.sigLenHolds (str j "alg") (nat j "modulus_bytes") (nat j "len"))]
+
 /-- Judge C15 on what the implementation produced: `jwk` / `thumb` are the observed strings,
 `members` the octets the harness decoded from the observed JWK's base64url members, `raw` the key
 components extracted independently with OpenSSL. -/
@@ -132,6 +137,6 @@ def opC15Judge (j : Json) : Json :=
 
 def opsJose : List (String × (Json → Json)) :=
   [("jwk", opJwk), ("proof", opProof), ("b64", opB64), ("b64dec", opB64Dec), ("sha256", opSha256),
-   ("jws_expect", opJwsExpect), ("sig_split", opSigSplit), ("c15_judge", opC15Judge)]
+   ("jws_expect", opJwsExpect), ("sig_split", opSigSplit), ("c15_judge", opC15Judge), ("c15_siglen", opC15SigLen)]
 
 end Drv
